@@ -255,7 +255,7 @@ def serial_buffer():
         enc = IO.NMEA2000Encoder()
         pk = [enc.encode_usb(heading(s))[0] for s in (11, 12, 13)]
         noise = bytes(rnd.choice([0x00, 0x55, 0x11, 0xAB, 0x7F]) for _ in range(3000))
-        stream = noise + pk[0] + noise[:75] + b'\\xaa' + b'\\x00' * 30 + pk[1] + noise[:61] + pk[2]
+        stream = noise + pk[0] + noise[:75] + b'\\xaa' + b'\\x00' * 30 + pk[1] + b'\\xaa\\x00' + noise + pk[2]       # a lone AA in front of long marker-free noise
         sizes = []
         c.reader = FakeReader([stream[i:i + 7] for i in range(0, len(stream), 7)], eof=False); c._buffer = bytearray(); c._state = State.CONNECTED
         async def pump():
@@ -271,7 +271,7 @@ def serial_buffer():
     if 'delivered' not in r:
         return {'scenario': 'serial noise', 'observed': r}
     if r['max_buffer'] > 120 or r['delivered'] != [11, 12, 13]:
-        return {'scenario': '3000 bytes of marker-free noise, packets separated by noise (one run ending in half a marker), 7-byte reads', 'observed': r,
+        return {'scenario': '3000 bytes of marker-free noise, packets separated by noise (one run ending in half a marker, one starting with a lone AA), 7-byte reads', 'observed': r,
                 'expected': 'all three packets delivered; pending bytes never above a few packets (120)'}
     return None
 
@@ -361,7 +361,9 @@ def delivery_all_clients():
         cls = {'ebyte': IO.EByteNmea2000Gateway, 'actisense': IO.ActisenseNmea2000Gateway, 'yacht': IO.YachtDevicesNmea2000Gateway, 'usb': IO.WaveShareNmea2000Gateway}[kind]
         c = cls('/dev/null') if kind == 'usb' else cls('h', 1)
         got = []
-        async def rc(m): got.append(sig(m))
+        async def rc(m):
+            got.append(sig(m))
+            if len(got) == 2: raise RuntimeError('callback failure on the second message')
         c.set_receive_callback(rc)
         stream = b''.join(packets)
         c.reader = FakeReader([stream[i:i + chunk] for i in range(0, len(stream), chunk)], eof=False); c._state = State.CONNECTED
@@ -433,16 +435,78 @@ def delivery_all_clients():
     if r.get('bad'):
         b = r['bad']
         return {'scenario': 'packets with undecodable packets / line noise / marker-free noise / damaged packets in between, several read sizes', 'observed': b,
-                'expected': 'exactly the messages a reference decoder returns for the valid packets, once each, in order; no exception escapes the receive step'}
+                'expected': 'exactly the messages a reference decoder returns for the valid packets, once each, in order (the callback raises once); no exception escapes the receive step'}
     return None if 'bad' in r else {'scenario': 'delivery over all clients', 'observed': r}
 
 
+def stale_writer():
+    r = run_script('''
+    class GateWriter(FakeWriter):
+        def __init__(self, log, gate): super().__init__(log); self.gate = gate
+        async def drain(self):
+            await self.gate.wait()
+    async def main():
+        c = IO.EByteNmea2000Gateway('h', 1)
+        log1, log2 = [], []
+        gate = asyncio.Event()
+        c.writer = GateWriter(log1, gate); c._state = State.CONNECTED
+        ta = asyncio.create_task(c.send(heading(1)))
+        for _ in range(5): await asyncio.sleep(0)              # A has written its packet and waits in drain(), holding the send lock
+        tb = asyncio.create_task(c.send(fast_message(2)))
+        for _ in range(5): await asyncio.sleep(0)              # B queues behind A
+        c.writer = FakeWriter(log2)                            # a reconnect replaces the link meanwhile
+        gate.set()
+        await asyncio.wait_for(asyncio.gather(ta, tb), 5)
+        st = c.state.name
+        await c.close()
+        print('RESULT ' + json.dumps({'old_link_sources': [p[4] for p in log1], 'new_link_sources': [p[4] for p in log2], 'state': st}))
+    asyncio.run(main())
+    ''')
+    if 'new_link_sources' not in r:
+        return {'scenario': 'stale writer', 'observed': r}
+    if 2 in r['old_link_sources'] or r['new_link_sources'].count(2) != 7:
+        return {'scenario': 'send() B waits for the send lock while the link is replaced by a reconnect; after A finishes, B must write its 7 packets to the current link', 'observed': r,
+                'expected': 'old link: only the packet of A (source 1); new link: the 7 packets of B (source 2)'}
+    return None
+
+
+def reconnect_after_reset():
+    r = run_script('''
+    class ResetWriter(FakeWriter):
+        async def wait_closed(self): raise ConnectionResetError('connection reset by peer')
+        def is_closing(self): return True
+    async def main():
+        c = IO.EByteNmea2000Gateway('h', 1)
+        trace = []
+        async def scb(s): trace.append(s.name)
+        c.set_status_callback(scb)
+        attempts = []
+        async def fake_connect_impl():
+            attempts.append(1)
+            c.reader = FakeReader([], eof=False); c.writer = FakeWriter([])
+        c._connect_impl = fake_connect_impl
+        c.writer = ResetWriter([]); c.reader = FakeReader([], eof=False); c._state = State.DISCONNECTED      # the previous session ended with a reset
+        t = asyncio.create_task(c.connect())
+        for _ in range(40):
+            await asyncio.sleep(0.05)
+            if c.state == State.CONNECTED: break
+        st = c.state.name
+        t.cancel(); await c.close()
+        print('RESULT ' + json.dumps({'state_after_2s': st, 'attempts_that_reached_the_transport': len(attempts), 'trace': trace}))
+    asyncio.run(main())
+    ''', timeout=30)
+    if r.get('state_after_2s') != 'CONNECTED':
+        return {'scenario': 'the previous link was lost with a reset (its writer reports the error from wait_closed()); the gateway accepts the next connection', 'observed': r,
+                'expected': 'CONNECTED after the first attempt'}
+    return None
+
+
 BATTERY = {
-    'C19': {'concurrent-send': [concurrent_send], 'unsendable': [unsendable], None: [concurrent_send, unsendable]},
+    'C19': {'concurrent-send': [concurrent_send], 'unsendable': [unsendable], 'stale-writer': [stale_writer], None: [concurrent_send, unsendable, stale_writer]},
     'C14': {'close-during-connect': [close_during_connect], 'status-trace': [status_trace], 'status-callback-raises': [status_trace],
             'close-during-_receive_loop': [fault_while_closing], 'close-during-send': [fault_while_closing],
             None: [close_during_connect, fault_while_closing, status_trace]},
-    'C13': {'eof': [eof_no_stall], None: [eof_no_stall, close_during_connect]},
+    'C13': {'eof': [eof_no_stall], 'reconnect-after-reset': [reconnect_after_reset], None: [eof_no_stall, close_during_connect, reconnect_after_reset]},
     'C12': {None: [delivery_order, delivery_all_clients, serial_split_marker]},
     'C06': {None: [delivery_all_clients, serial_split_marker]},
     'C20': {'bound': [serial_buffer], 'split-marker': [serial_split_marker], None: [serial_buffer, serial_split_marker, delivery_all_clients]},
